@@ -351,6 +351,38 @@ def coq_kernel_case(c, out):
     return None
 
 
+def coq_kernel_case2(c, out):
+    """Coq literal of Model/KernelsPyCy2Check.v (kernel_case2) for the kernels modelled in KernelsPyCy2/3.v, or None"""
+    f = c['f']
+    if 'error' in out or 'runner_error' in out or 'crash' in out:
+        return None
+    if f == 'pipe' and 'pipe' in out:
+        if any(abs(x) >= 2 ** 40 for l in c['legs'] for row in l['charges'] for x in row):
+            return None
+        legs = '[' + '; '.join('mkPleg %s %s %s' % (coq_lit(int(l['qconj'])), coq_lit([list(r) for r in l['charges']]),
+                                                     coq_lit(list(l['sizes']))) for l in c['legs']) + ']'
+        return 'KPipe %s %s %s %s %s %s %s %s %s' % (
+            coq_lit(list(c['mods'])), coq_lit(int(c['qconj'])), legs, coq_lit(bool(c['sort'])), coq_lit(bool(c['bunch'])),
+            coq_lit(out['pipe']['q_map']), coq_lit(out['pipe']['q_map_slices']), coq_lit(out['charges']), coq_lit(out['slices']))
+    if f == 'sliced_copy' and 'v' in out and c['dtype'] in ('float64', 'float32', 'int64'):
+        nd = len(c['sl'])
+        n = 1
+        for x in c['dshape']:
+            n *= x
+        m = 1
+        for x in c['sshape']:
+            m *= x
+        if n > 900 or m > 900:
+            return None
+        v = [int(x) for x in out['v']]
+        if any(float(a) != float(b) for a, b in zip(v, out['v'])):
+            return None
+        return 'KSlicedCopy %s %s %s %s %s %s' % (coq_lit(list(c['dshape'])), coq_lit(list(c['sshape'])),
+                                                  coq_lit(list(c['dbeg'] or [0] * nd)), coq_lit(list(c['sbeg'] or [0] * nd)),
+                                                  coq_lit(list(c['sl'])), coq_lit(v))
+    return None
+
+
 # ------------------------------------------------------------------------------------------------
 
 def main(ctx):
@@ -418,6 +450,8 @@ def main(ctx):
     mark('compare-programs')
     coq_cases = {'py': [], 'cy': []}
     coq_idx = {'py': [], 'cy': []}
+    coq_cases2 = {'py': [], 'cy': []}
+    coq_idx2 = {'py': [], 'cy': []}
     if outk is not None:
         for i, (c, p, y) in enumerate(zip(kcases, outk['py'], outk['cy'])):
             f = c['f']
@@ -452,6 +486,10 @@ def main(ctx):
                 if lit is not None:
                     coq_cases[cfg].append('(%s)' % lit)
                     coq_idx[cfg].append(i)
+                lit2 = coq_kernel_case2(c, o)
+                if lit2 is not None:
+                    coq_cases2[cfg].append('(%s)' % lit2)
+                    coq_idx2[cfg].append(i)
         # ---- the Coq models against BOTH configurations (tie K, twice)
         for cfg in ('py', 'cy'):
             bad, err = common.coq_failing_indices('cases_c04_' + cfg, ['Base.Prelude', 'Model.KernelsPyCy'], 'check_' + cfg,
@@ -467,7 +505,20 @@ def main(ctx):
                          {'stream': 'kernels', 'case': kcases[i], 'impl': outk[cfg][i]}, match_key=k)
             ctx.cov['traces_validated_against_impl_' + cfg] = len(coq_cases[cfg])
             mark('coq-model-' + cfg)
-        ctx.cov['traces_validated_against_impl'] = len(coq_cases['py']) + len(coq_cases['cy'])
+            # second stream: LegPipe._init_from_legs and _sliced_copy (Model/KernelsPyCy2.v, KernelsPyCy3.v)
+            bad2, err2 = common.coq_failing_indices('cases2_c04_' + cfg, ['Base.Prelude', 'Model.KernelsPyCy', 'Model.KernelsPyCy2',
+                                                                          'Model.KernelsPyCy3', 'Model.KernelsPyCy2Check'],
+                                                    'check2_' + cfg, coq_cases2[cfg], shard=150)
+            if err2:
+                ctx.fail('correspondence', 'model evaluation failed (kernels2, %s): %s' % (cfg, err2[-600:]), None)
+            for b in bad2[:5]:
+                i = coq_idx2[cfg][b]
+                ctx.fail('correspondence', 'Model/KernelsPyCy2.v/KernelsPyCy3.v (%s_%s) and the %s configuration disagree' % (kcases[i]['f'], cfg, cfg),
+                         {'stream': 'kernels', 'case': kcases[i], 'impl': outk[cfg][i]})
+            ctx.cov['traces2_validated_against_impl_' + cfg] = len(coq_cases2[cfg])
+            mark('coq-model2-' + cfg)
+        ctx.cov['traces_validated_against_impl'] = (len(coq_cases['py']) + len(coq_cases['cy'])
+                                                    + len(coq_cases2['py']) + len(coq_cases2['cy']))
     if outa is not None:
         for c, p, y in zip(algos, outa['py'], outa['cy']):
             ctx.count('algorithms', c, nontrivial=True, sample={'case': c, 'E_py': p.get('E'), 'E_cy': y.get('E')})
